@@ -121,9 +121,12 @@ def draw_functional(cs, sc):
             spec["method"] = cs.choice(["cg", "bicgstab", "gmres", "broyden1", "exactsolve", "custom_exactsolve"], "m")
             spec["E"] = cs.bool("withE", 1, 3) and spec["method"] != "gmres"
             spec["bck"] = cs.choice([None, "cg", "exactsolve"], "bck")
+            # a second user operator M (A X - M X E = B): two operators substituted in one call
+            spec["M"] = bool(spec["E"]) and cs.bool("withM", 1, 2)
         elif F == "symeig":
             spec["method"] = cs.choice(["exacteig", "custom_exacteig", "davidson"], "m")
             spec["neig"] = cs.randint(1, 2, "neig")
+            spec["M"] = cs.bool("withM", 1, 3)
         return spec
     F = ["rootfinder", "equilibrium", "minimize", "solve_ivp", "quad", "mcquad", "jac", "hess", "reentrant"][
         cs.weighted([4, 3, 3, 4, 3, 3, 3, 2, 2], "F")]
@@ -237,6 +240,14 @@ def build_env(sc):
             elif sc["composite"] == 2:
                 env.linop = A * 2
                 env.actors.append(env.linop)
+    if sc["family"] == 1:
+        with warnings.catch_warnings():
+            warnings.simplefilter("ignore")
+            W3 = (0.5 * vals["W2"]).clone().requires_grad_(sc["rgW"])
+            b3 = (vals["b2"] + 0.5).clone().requires_grad_(sc["rgb"])
+            env.Mop = AC.LOPlain(W3, b3, hermitian=True)     # positive definite overlap operator
+            env.actors.append(env.Mop)
+            env.leaf_extra += [W3, b3]
     env.s = torch.tensor(0.7, dtype=AC.DT).requires_grad_(sc["rgs"])
     env.s2 = torch.tensor(0.9, dtype=AC.DT).requires_grad_(sc["rgs"])
     env.y0 = vals["y0"].clone()
@@ -432,13 +443,15 @@ def run_functional(env, spec):
     if F == "solve":
         E = torch.tensor([0.1, -0.2], dtype=AC.DT) if spec["E"] else None
         bck = {"method": spec["bck"]} if spec["bck"] else {}
-        x = xl.solve(A, B, E=E, method=spec["method"], bck_options=bck, **kn)
+        M = env.Mop if spec.get("M") else None
+        x = xl.solve(A, B, E=E, M=M, method=spec["method"], bck_options=bck, **kn)
         return (x * x).sum()
     if F == "symeig":
         ne = min(spec["neig"], n)
         opts = {"max_niter": 30} if spec["method"] == "davidson" else {}
         opts.update(kn)
-        ev, evec = xl.symeig(A, neig=ne, method=spec["method"], **opts)
+        M = env.Mop if spec.get("M") else None
+        ev, evec = xl.symeig(A, neig=ne, M=M, method=spec["method"], **opts)
         return ev.sum() + (evec.abs() ** 2 * torch.linspace(1, 2, n, dtype=AC.DT).unsqueeze(-1)).sum()
     if F == "svd":
         u, sv, vh = xl.svd(A, k=1, method="exacteig")
